@@ -329,7 +329,61 @@ func c12Sigs(maxFixed int) []c12Sig {
 	return sigs
 }
 
-func c12One(b *core.B, s c12Sig, argIdx []int, hasBlock bool) {
+// c12Rcv is a receiver whose methods record what they get; the method
+// signatures mirror entries of the signature family.
+type c12Rcv struct{ env *c12Env }
+
+func (r c12Rcv) rec(vals ...interface{}) string {
+	r.env.calls++
+	parts := []string{}
+	for _, v := range vals {
+		rv := reflect.ValueOf(v)
+		if !rv.IsValid() {
+			parts = append(parts, "iface(nil)")
+			continue
+		}
+		parts = append(parts, r.env.describe(rv))
+	}
+	r.env.received = strings.Join(parts, " | ")
+	return "RET"
+}
+func (r c12Rcv) M0() string                                       { return r.rec() }
+func (r c12Rcv) M1(s string) string                               { return r.rec(s) }
+func (r c12Rcv) M2(s string, i int) string                        { return r.rec(s, i) }
+func (r c12Rcv) MP(p *T) string                                   { return r.rec(p) }
+func (r *c12Rcv) PM1(i int) string                                { return r.rec(i) }
+func (r c12Rcv) MM(s string, m map[string]interface{}) string     { return r.rec(s, m) }
+func (r c12Rcv) MH(b bool, h plush.HelperContext) string          { return r.rec(b, h) }
+func (r c12Rcv) MV(i int, xs ...string) string {
+	if len(xs) == 0 {
+		xs = []string{}
+	}
+	return r.rec(i, xs)
+}
+
+var c12Methods = map[string]c12Sig{
+	"M0":  {result: 1},
+	"M1":  {fixed: []reflect.Type{c12TString}, result: 1},
+	"M2":  {fixed: []reflect.Type{c12TString, c12TInt}, result: 1},
+	"MP":  {fixed: []reflect.Type{c12TPtr}, result: 1},
+	"PM1": {fixed: []reflect.Type{c12TInt}, result: 1},
+	"MM":  {fixed: []reflect.Type{c12TString}, mapT: c12TMap, result: 1},
+	"MH":  {fixed: []reflect.Type{c12TBool}, ctxT: c12THC, result: 1},
+	"MV":  {fixed: []reflect.Type{c12TInt}, variadic: c12TString, result: 1},
+}
+
+func c12One(b *core.B, s c12Sig, argIdx []int, hasBlock bool) { c12Call(b, s, argIdx, hasBlock, "") }
+
+var c12ForcePrefix string
+
+func c12CallOn(b *core.B, s c12Sig, argIdx []int, hasBlock bool, method, prefix string) {
+	c12ForcePrefix = prefix
+	defer func() { c12ForcePrefix = "" }()
+	c12Call(b, s, argIdx, hasBlock, method)
+}
+
+// c12Call judges one call; with method != "" the callee is rcv.<method>.
+func c12Call(b *core.B, s c12Sig, argIdx []int, hasBlock bool, method string) {
 	env := &c12Env{sentinel: errors.New("C12-SENTINEL"), tp: &T{Name: "fixture"}}
 	pool := c12Args(env)
 	args := make([]c12Arg, len(argIdx))
@@ -344,7 +398,15 @@ func c12One(b *core.B, s c12Sig, argIdx []int, hasBlock bool) {
 			wantTrace = append(wantTrace, id)
 		}
 	}
-	tmpl := "[<%= helperUnderTest(" + strings.Join(srcs, ", ") + ")"
+	callee := "helperUnderTest"
+	if method != "" {
+		prefix := []string{"rcv.", "prcv.", "hold.R."}[int(b.Ordinal()+int64(len(argIdx)))%3]
+		if c12ForcePrefix != "" {
+			prefix = c12ForcePrefix
+		}
+		callee = prefix + method
+	}
+	tmpl := "[<%= " + callee + "(" + strings.Join(srcs, ", ") + ")"
 	if hasBlock {
 		tmpl += " { %>BLK<% }"
 	}
@@ -353,7 +415,13 @@ func c12One(b *core.B, s c12Sig, argIdx []int, hasBlock bool) {
 		return
 	}
 	ctx := plush.NewContext()
-	ctx.Set("helperUnderTest", env.makeFunc(s))
+	if method == "" {
+		ctx.Set("helperUnderTest", env.makeFunc(s))
+	} else {
+		ctx.Set("rcv", c12Rcv{env})
+		ctx.Set("prcv", &c12Rcv{env})
+		ctx.Set("hold", struct{ R c12Rcv }{c12Rcv{env}})
+	}
 	ctx.Set("tp", env.tp)
 	ctx.Set("ints", []int{1, 2})
 	ctx.Set("val", func(id string, v interface{}) interface{} {
@@ -372,13 +440,16 @@ func c12One(b *core.B, s c12Sig, argIdx []int, hasBlock bool) {
 	}
 	b.NonTrivialStr(s.String(), tmpl)
 	cls := c12Class(s, args)
+	if method != "" {
+		cls = "method:" + cls
+	}
 	if pred.status == "reject" {
 		switch {
 		case env.calls > 0:
 			b.Violate("invoked-although-rejected|"+cls, fmt.Sprintf("the call must be rejected; the helper was invoked %d time(s) with: %s", env.calls, env.received))
 		case res.Err == nil:
 			b.Violate("rejection-not-reported|"+cls, fmt.Sprintf("the call must be rejected; Render returned %q without error", res.Out))
-		case !strings.Contains(res.Err.Error(), "helperUnderTest"):
+		case method == "" && !strings.Contains(res.Err.Error(), "helperUnderTest"), method != "" && !strings.Contains(res.Err.Error(), method):
 			b.Violate("rejection-does-not-name-the-call|"+cls, fmt.Sprintf("error: %v", res.Err))
 		}
 		return
@@ -480,6 +551,24 @@ func c12Run(b *core.B) {
 			}
 		}
 	}
+	// methods on struct receivers (value, pointer, through a field), all calls of 0-3 arguments
+	mnames := []string{"M0", "M1", "M2", "MP", "PM1", "MM", "MH", "MV"}
+	for _, mn := range mnames {
+		for _, sh := range shapes {
+			for blk := 0; blk < 2; blk++ {
+				idx++
+				if !b.Mine(idx) {
+					continue
+				}
+				if mn == "PM1" {
+					// a pointer-receiver method needs an addressable receiver: only through prcv
+					c12CallOn(b, c12Methods[mn], sh, blk == 1, mn, "prcv.")
+					continue
+				}
+				c12Call(b, c12Methods[mn], sh, blk == 1, mn)
+			}
+		}
+	}
 	// random: 3 fixed parameters and 4-argument calls
 	r := b.Rng(2)
 	big := c12Sigs(3)
@@ -517,7 +606,7 @@ func init() {
 	core.Register(&core.Prop{
 		ID:    "C12",
 		Level: "exploration",
-		Rule: "helper signatures built at run time with reflect.FuncOf/MakeFunc (recording bodies): 0-2 fixed parameters over {string, int, bool, interface{}, *T, []int} x trailing {none, map[string]interface{}, hctx.Map} x {none, plush.HelperContext, hctx.HelperContext} or a variadic tail {...string, ...int, ...interface{}} x 6 result shapes ((), (T), (T,nil), (T,err), (nil error), (err)) = 3096 signatures, crossed with every call of 0-3 arguments over 8 argument kinds (string, int, nil, hash literal, pointer variable, bool, recorded call, []int variable) with and without a block (all pairs in thorough, a stratified 1/60 sample in quick), plus random 3-parameter signatures and 4-argument calls. Oracle: a reference binder written from the property text predicts accept/reject and the exact received arguments; the recording body reports what arrived (values, zero values for nil, auto-supplied map/context incl. the block rendered through the context, variadic tail), the recorded argument trace, invocation count, and result handling. Non-trivial = judged (signature, call) pair.",
+		Rule: "helper signatures built at run time with reflect.FuncOf/MakeFunc (recording bodies): 0-2 fixed parameters over {string, int, bool, interface{}, *T, []int} x trailing {none, map[string]interface{}, hctx.Map} x {none, plush.HelperContext, hctx.HelperContext} or a variadic tail {...string, ...int, ...interface{}} x 6 result shapes ((), (T), (T,nil), (T,err), (nil error), (err)) = 3096 signatures, crossed with every call of 0-3 arguments over 8 argument kinds (string, int, nil, hash literal, pointer variable, bool, recorded call, []int variable) with and without a block (all pairs in thorough, a stratified 1/60 sample in quick), plus 8 recording methods on struct receivers (value receiver, pointer receiver, receiver reached through a field) crossed with the same calls, plus random 3-parameter signatures and 4-argument calls. Oracle: a reference binder written from the property text predicts accept/reject and the exact received arguments; the recording body reports what arrived (values, zero values for nil, auto-supplied map/context incl. the block rendered through the context, variadic tail), the recorded argument trace, invocation count, and result handling. Non-trivial = judged (signature, call) pair.",
 		Assume:  []string{"too few non-optional arguments is not judged (the property is silent)", "assignability is Go's reflect AssignableTo, as the property words it"},
 		Batches: batchesQT(16, 64),
 		Run:     c12Run,
